@@ -58,6 +58,7 @@ type Ctx struct {
 	epochs     int
 	boxedVars  map[types.Object]bool
 	locks      []string
+	wfDone     map[string]bool
 	pcParent   map[string]string
 	pcPhi      map[string]string
 	interior   map[string]*Loc
@@ -311,6 +312,21 @@ func (c *Ctx) zeroOfSort(s string) string {
 	return ""
 }
 
+// refTypeFact: non-nil references of different Go types are different objects.
+func (c *Ctx) refTypeFact(term string, t types.Type) string {
+	switch types.Unalias(t).Underlying().(type) {
+	case *types.Pointer, *types.Chan, *types.Map:
+		c.declareFun("reftype", []string{"Int"}, "Int")
+		tt := t
+		if ch, ok := types.Unalias(t).Underlying().(*types.Chan); ok {
+			// channel direction does not change identity
+			tt = types.NewChan(types.SendRecv, ch.Elem())
+		}
+		return fmt.Sprintf("(=> (not (= %s 0)) (= (reftype %s) %d))", term, term, c.typeTagKey("ref:"+types.TypeString(types.Unalias(tt), nil)))
+	}
+	return ""
+}
+
 // rangeAssume returns the type-range constraint for a term of Go type t ("" if none).
 func (c *Ctx) rangeAssume(term string, t types.Type) string {
 	t = types.Unalias(t)
@@ -446,7 +462,17 @@ func (c *Ctx) oblige(st *State, class, anchor, phi, text string, pos token.Posit
 	return o
 }
 
-func (o *Oblig) Query(withModel bool) string {
+func quantified(s string) bool {
+	return strings.Contains(s, "(forall ") || strings.Contains(s, "(exists ")
+}
+
+// QueryQF: the same query with every quantified assumption dropped (a weaker set of assumptions:
+// unsat here implies unsat of the full query).
+func (o *Oblig) QueryQF() string { return o.query(false, true) }
+
+func (o *Oblig) Query(withModel bool) string { return o.query(withModel, false) }
+
+func (o *Oblig) query(withModel, qf bool) string {
 	c := o.ctx
 	var b strings.Builder
 	b.WriteString("(set-option :produce-models true)\n(set-logic ALL)\n")
@@ -459,12 +485,28 @@ func (o *Oblig) Query(withModel bool) string {
 		b.WriteByte('\n')
 	}
 	for _, a := range c.asserts[:o.NAssert] {
+		if qf && quantified(a) {
+			// keep the path structure of assumptions: pcN => pcM
+			if strings.HasPrefix(a, "(assert (=> pc!") {
+				rest := a[len("(assert (=> "):]
+				sp := strings.Index(rest, " ")
+				pcn := rest[:sp]
+				if par, ok := c.pcParent[pcn]; ok {
+					b.WriteString("(assert (=> " + pcn + " " + par + "))\n")
+				}
+			}
+			continue
+		}
 		b.WriteString(a)
 		b.WriteByte('\n')
 	}
 	// path-condition constants on the single-parent chain above o.PC are certainly true: state their facts at top level
 	for pc := o.PC; pc != "" && pc != "true"; pc = c.pcParent[pc] {
 		if phi, ok := c.pcPhi[pc]; ok {
+			if qf && quantified(phi) {
+				b.WriteString("(assert " + pc + ")\n")
+				continue
+			}
 			b.WriteString("(assert " + pc + ")\n(assert " + phi + ")\n")
 		} else {
 			break
